@@ -10,6 +10,7 @@ import (
 
 func init() {
 	register("C11", func(c *core.Ctx, tier string) {
+		constructorChain(c, "C11.9")
 		c11Overlap(c)
 		c11SingleWriter(c)
 		lockBalance(c, "C11.3b", "types", "transports")
@@ -112,8 +113,15 @@ func c11Overlap(c *core.Ctx) {
 					continue
 				}
 				n++
-				c.Check(R2, keyf("%s/%s.%s(%s)", x.Key, strings.SplitN(field, ".", 2)[1], cl.Name, core.ExprString(cl.Arg(0))), cl.Pos(), core.IsNil(x.Info(), cl.Arg(0)),
-					"only nil (release) may be stored without the atomic claim")
+				// who may release: the request's own cleanup (run when its response is being written / its connection went away), and for the data slot the refusal edges of onDataRequest;
+				// a release anywhere else (e.g. while the response is still being produced) re-opens the slot for an overlapping request whose context the cleanup later wipes
+				releasers := map[string]bool{
+					"polling.req|transports.(*polling).onPollRequest$Cleanup":     true,
+					"polling.dataCtx|transports.(*polling).onDataRequest$cleanup": true,
+					"polling.dataCtx|transports.(*polling).onDataRequest":         true,
+				}
+				c.Check(R2, keyf("%s/%s.%s(%s)", x.Key, strings.SplitN(field, ".", 2)[1], cl.Name, core.ExprString(cl.Arg(0))), cl.Pos(), core.IsNil(x.Info(), cl.Arg(0)) && cl.Name == "Store" && releasers[field+"|"+x.Key],
+					"only nil (release) may be stored without the atomic claim, and only by the request's own cleanup")
 			}
 		}
 	}
